@@ -32,7 +32,34 @@ ALL_KERNELS = ["transform_dynmat_to_fc", "perm_trans_symmetrize_fc", "perm_trans
                "tetrahedra_integration_weight", "tetrahedra_integration_weight_at_omegas", "tetrahedra_frequencies", "tetrahedron_method_dos"]
 
 
+# the reference clause ("same result as the in-repository Python version / the documented formula") is decided kernel by kernel
+# by units that live in the checks of the properties those kernels serve; they are run here as well, under this property's id
+REF_UNITS = [("c02", ("c_vs_py", "tric2", "211", True, False)), ("c02", ("c_vs_py", "tric2", "nd4", True, False)), ("c02", ("c_vs_py", "tric2", "211", True, True)),
+             ("c12", ("c_vs_py", "tric2", "211")), ("c12", ("wang_c_vs_py", "tric2", "211")),
+             ("c11", ("c_vs_py", 0)), ("c10", ("kernel", 0, (2, 2, 2))), ("c07", ("tric2", "211", 1))]
+REF_UNITS_THOROUGH = [("c02", ("c_vs_py", "cscl", "311", True, False)), ("c02", ("c_vs_py", "nacl8i", "111", True, True)), ("c12", ("c_vs_py", "hex2", "111")),
+                      ("c12", ("wang_c_vs_py", "hex2", "211")), ("c10", ("kernel", 1, (2, 2, 2))), ("c07", ("hex2", "211", 1)), ("c07", ("cscl", "211", 2))]
+
+
 def units(tier):
+    u = _units(tier)
+    u += [("ref", m, x) for m, x in REF_UNITS + (REF_UNITS_THOROUGH if tier == "thorough" else [])]
+    return u
+
+
+def ref_unit(u):
+    import importlib
+    mod = importlib.import_module("checks." + u[1])
+    r = mod.run_unit(tuple(u[2]))
+    r.unit = "ref/%s/%s" % (u[1], r.unit)
+    for lst in (r.violations, r.unconfirmed):
+        for v in lst:
+            v["key"] = "%s:ref:%s" % (PID, v["key"])
+            v["what"] = "compiled kernel vs reference (unit %s of %s): %s" % (r.unit, u[1].upper(), v["what"])
+    return r
+
+
+def _units(tier):
     u = [("sweep", "cscl", "211", True), ("sweep", "tric2", "211", False), ("sweep", "bccI", "211", True),
          ("maps", "distribute_fc2"), ("maps", "compact_sym"), ("maps", "dynmat"), ("maps", "dynmat_to_fc"), ("maps", "tetra_freqs"),
          ("maps", "thermal"), ("maps", "derivative")]
@@ -538,6 +565,8 @@ def run_unit(u):
         return sweep_unit(u, res)
     if u[0] == "maps":
         return maps_unit(u, res)
+    if u[0] == "ref":
+        return ref_unit(u)
     return race_unit(u, res)
 
 
@@ -545,7 +574,7 @@ def main(tier, seed):
     chk = Check(PID, tier, seed, level="translation_validation")
     harness.setup(("so", "ir", "ir_omp", "so_omp", "so_asan"))
     us = units(tier)
-    chk.bounds = ["sweep: workflows on the listed crystals, first call per (kernel, shape signature), at most 4 signatures per kernel",
+    chk.bounds = ["ref: compiled kernel == Python reference / documented formula with symbolic force constants, Born charges, frequencies etc. on the crystals named in the unit (bounds of those units: see C02, C07, C10, C11, C12)", "sweep: workflows on the listed crystals, first call per (kernel, shape signature), at most 4 signatures per kernel",
                   "maps: n_satom=4, n_patom=2 (and 2x2x1 mesh, 2 q-points); every index entry symbolic within its documented range",
                   "race: two symbolic iterations per OpenMP loop on the same small shapes; offsets are linear in the iteration index"]
     chk.outside = ["nanobind's own argument conversion", "shapes beyond the bound (e.g. 32-bit index overflow of perm_trans_symmetrize_fc at n_satom >= 15449)",
